@@ -23,20 +23,20 @@ pub fn any_grid(g: i32) -> i32 {
     v
 }
 
-/// Exact 2×2 … 4×4 integer determinants (cofactor expansion), i64/i128.
-pub fn det2(a: i64, b: i64, c: i64, d: i64) -> i64 {
+/// Exact 2×2 … 4×4 integer determinants (cofactor expansion), i32/i128.
+pub fn det2(a: i32, b: i32, c: i32, d: i32) -> i32 {
     a * d - b * c
 }
 
-pub fn det3(m: [[i64; 3]; 3]) -> i64 {
+pub fn det3(m: [[i32; 3]; 3]) -> i32 {
     m[0][0] * det2(m[1][1], m[1][2], m[2][1], m[2][2])
         - m[0][1] * det2(m[1][0], m[1][2], m[2][0], m[2][2])
         + m[0][2] * det2(m[1][0], m[1][1], m[2][0], m[2][1])
 }
 
-pub fn det4(m: [[i64; 4]; 4]) -> i64 {
-    let minor = |skip: usize| -> i64 {
-        let mut s = [[0_i64; 3]; 3];
+pub fn det4(m: [[i32; 4]; 4]) -> i32 {
+    let minor = |skip: usize| -> i32 {
+        let mut s = [[0_i32; 3]; 3];
         let mut r = 0;
         while r < 3 {
             let mut cc = 0;
@@ -55,7 +55,28 @@ pub fn det4(m: [[i64; 4]; 4]) -> i64 {
     m[0][0] * minor(0) - m[0][1] * minor(1) + m[0][2] * minor(2) - m[0][3] * minor(3)
 }
 
-pub fn sign(v: i64) -> i32 {
+pub fn det5(m: [[i32; 5]; 5]) -> i32 {
+    let minor = |skip: usize| -> i32 {
+        let mut s = [[0_i32; 4]; 4];
+        let mut r = 0;
+        while r < 4 {
+            let mut cc = 0;
+            let mut c = 0;
+            while c < 5 {
+                if c != skip {
+                    s[r][cc] = m[r + 1][c];
+                    cc += 1;
+                }
+                c += 1;
+            }
+            r += 1;
+        }
+        det4(s)
+    };
+    m[0][0] * minor(0) - m[0][1] * minor(1) + m[0][2] * minor(2) - m[0][3] * minor(3) + m[0][4] * minor(4)
+}
+
+pub fn sign(v: i32) -> i32 {
     if v > 0 {
         1
     } else if v < 0 {
